@@ -22,4 +22,6 @@ def run(rep, tier, seed):
     ]
     for m in MODULES:
         run_contracts(rep, m, tier, seed)
+    # to_etree writes nothing but converter.unconvert(value) into element text (L1, symbolic attribute), same for ElementList members
+    run_contracts(rep, "contracts.aggregate", tier, seed)
     replay_known_findings(rep)
